@@ -93,6 +93,23 @@ func (o *rateLimitOptions) validate() (err error) {
 	)
 }
 
+// validateSubnetKeyLen returns an error if the subnet-key length of o does not
+// fit into an address of maxLen bits.  o may be nil, in which case the absence
+// is reported by its own validation.
+func validateSubnetKeyLen(prop string, o *rateLimitOptions, maxLen int) (err error) {
+	if o != nil && o.SubnetKeyLen > maxLen {
+		return fmt.Errorf(
+			"%s: subnet_key_len: %w: got %d, max %d",
+			prop,
+			errors.ErrOutOfRange,
+			o.SubnetKeyLen,
+			maxLen,
+		)
+	}
+
+	return nil
+}
+
 // toInternal converts c to the rate limiting configuration for the DNS server.
 // c must be valid.
 func (c *rateLimitConfig) toInternal(al ratelimit.Allowlist) (conf *ratelimit.BackoffConfig) {
@@ -128,6 +145,8 @@ func (c *rateLimitConfig) validate() (err error) {
 		validateProp("ipv6", c.IPv6.validate),
 		validateProp("quic", c.QUIC.validate),
 		validateProp("tcp", c.TCP.validate),
+		validateSubnetKeyLen("ipv4", c.IPv4, netutil.IPv4BitLen),
+		validateSubnetKeyLen("ipv6", c.IPv6, netutil.IPv6BitLen),
 		validatePositive("backoff_count", c.BackoffCount),
 		validatePositive("backoff_duration", c.BackoffDuration),
 		validatePositive("backoff_period", c.BackoffPeriod),
